@@ -74,7 +74,7 @@ def bounds(tier):
     q = tier == "quick"
     return {
         "log_messages": 3,
-        "script_events": 6 if q else 7,
+        "script_events": 6,
         "fault_budget": 1,
         "too_small_budget": 1,
         "offsets": "o_1 in [0, 2^62], gaps in [1, 2^40] (symbolic)",
@@ -103,7 +103,7 @@ def jobs(tier):
                         "proc": proc,
                         "acn": acn,
                         "n": 3,
-                        "K": 6 if q else 7,
+                        "K": 6,
                         "faults": 1,
                     }
                 )
@@ -113,7 +113,7 @@ def jobs(tier):
         for proc in ("sync", "async"):
             out.append({"start": start, "proc": proc, "acn": 1 if start == "committed" else None, "n": 3, "K": 5, "faults": 1, "sync": 1})
     for acn in (None, 2):
-        out.append({"start": "num", "proc": "paused", "acn": acn, "n": 3, "K": 6 if q else 7, "faults": 1})
+        out.append({"start": "num", "proc": "paused", "acn": acn, "n": 3, "K": 6, "faults": 1})
     out.append({"kind": "bytes", "batches": 2 if q else 3})
     return out
 
